@@ -27,6 +27,7 @@ type budget struct {
 	limit   int // -1 = unlimited
 	used    int
 	dead    bool
+	fault   bool // the effect beyond the limit FAILS (error returned) instead of the process dying there
 	release chan struct{} // closed at the end of the case: blocked goroutines of dead processes return
 }
 
@@ -38,6 +39,10 @@ func (b *budget) spend() bool {
 	b.mu.Lock()
 	if b.dead || (b.limit >= 0 && b.used >= b.limit) {
 		b.dead = true
+		if b.fault {
+			b.mu.Unlock()
+			return false
+		}
 		b.mu.Unlock()
 		<-b.release
 		return false
@@ -46,7 +51,11 @@ func (b *budget) spend() bool {
 	b.mu.Unlock()
 	return true
 }
-func (b *budget) arm(k int) { b.mu.Lock(); b.limit = k; b.used = 0; b.mu.Unlock() }
+func (b *budget) arm(k int, fault bool) {
+	b.mu.Lock()
+	b.limit, b.used, b.fault = k, 0, fault
+	b.mu.Unlock()
+}
 func (b *budget) kill()     { b.mu.Lock(); b.dead = true; b.mu.Unlock() }
 
 // ---- the world's record of one node's effects ---------------------------------------------------
